@@ -181,10 +181,7 @@ def drv_a1(s):
 
 def sym_input(eng, L, prefix):
     """string of length L whose first len(prefix) characters are pinned (one task per prefix)"""
-    s = eng.sym_str("c", L, SIGMA)
-    for c, p in zip(chars(s), prefix):
-        eng.assume(c.eq(p))
-    return s
+    return mk([eng.sym_char(f"c{i}", prefix[i] if i < len(prefix) else SIGMA) for i in range(L)])
 
 
 def task_a(L, prefix="", idem=True):
@@ -193,8 +190,7 @@ def task_a(L, prefix="", idem=True):
     s = sym_input(eng, L, prefix)
     cs = chars(s)
     pos_of = {c.var.idx: i for i, c in enumerate(cs)} if L else {}
-    g0 = b_all(c.eq(p) for c, p in zip(cs, prefix))
-    worlds = eng.run(drv_a if idem else drv_a1, [s], guard=g0)
+    worlds = eng.run(drv_a if idem else drv_a1, [s])
     nval = 0
     for W in worlds:
         if W.exc is not None:
@@ -266,8 +262,7 @@ def task_c(L, prefix=""):
     eng.interpret_also(ref_split, balanced)
     rec = Recorder(eng)
     s = sym_input(eng, L, prefix)
-    g0 = b_all(c.eq(p) for c, p in zip(chars(s), prefix))
-    worlds = eng.run(drv_c, [s], guard=g0)
+    worlds = eng.run(drv_c, [s])
     for W in worlds:
         if W.exc is not None:
             rec.require(W, True, "no-exception", lambda m: replay(eng.model_str(m, s), "exact"))
@@ -302,7 +297,7 @@ def conformance():
 
 def main():
     chk = Check("C12", __doc__)
-    LA, LI, LC = (9, 7, 7) if chk.tier == "quick" else (12, 9, 9)
+    LA, LI, LC = (11, 9, 9) if chk.tier == "quick" else (13, 11, 11)
     chk.bounds = {"alphabet": SIGMA, "conservation: all strings of length": f"0..{LA}",
                   "idempotence: all strings of length": f"0..{LI}",
                   "exact rule vs reference: all brace-balanced strings of length": f"0..{LC}"}
